@@ -1011,6 +1011,7 @@ func (o op) String() string {
 }
 
 type world struct {
+	dup      uint32 // value of the peer-settable duplicates field in every update of this history
 	rng      *rand.Rand
 	cfg      cfg
 	targets  []string
@@ -1100,6 +1101,9 @@ func (w *world) randEl() el {
 func newWorld(rng *rand.Rand, c cfg, st stats) *world {
 	w := &world{rng: rng, cfg: c, present: map[string]bool{}, pool: map[string]*poolObj{}, pathPool: map[string]*pb.Path{}, clock: 100, st: st}
 	w.targets = []string{"t1", "t2", "t3"}[:2+rng.Intn(2)]
+	if rng.Intn(4) == 0 {
+		w.dup = uint32(1 + rng.Intn(9))
+	}
 	w.encBias = rng.Intn(2)
 	nInit := 1 + rng.Intn(len(w.targets))
 	for _, t := range w.targets[:nInit] {
@@ -1191,6 +1195,7 @@ var allDeprecated = []*pb.Value{
 // both for old consumers does), some carry neither.
 func (w *world) fill(u *pb.Update) {
 	u.Val, u.Value = nil, nil
+	u.Duplicates = w.dup // a peer may set the field; constant per history, so it never makes a value "change"
 	switch x := w.rng.Intn(100); {
 	case x < 70:
 		u.Val = w.val()
